@@ -232,3 +232,161 @@ Proof.
 Qed.
 Lemma lex_line sty ps : pieces_ok sty ps -> lex (line_str ps) = (line_segs ps [], line_cur ps []).
 Proof. intros H. unfold lex, lex_init. rewrite (lex_line_fold sty ps H). unfold lex_end. cbn. now rewrite app_nil_r. Qed.
+
+(* ---------- running the segments: plain mode ---------- *)
+(* when the message does not end with a backslash, a tag is escaped exactly when the text before it ends with one *)
+Lemma esc_flag (first : bool) (pre : str) :
+  (match pre with [] => first && false | _ :: _ => ends_with_bsl pre end) = ends_with_bsl pre.
+Proof. destruct pre; [apply Bool.andb_false_r|reflexivity]. Qed.
+Lemma run_segs_first sty col f segs sk out le :
+  run_segs sty col false f segs sk out le = run_segs sty col false false segs sk out le.
+Proof. destruct segs as [|[pre t] r]; [reflexivity|]. cbn [run_segs]. now rewrite !esc_flag. Qed.
+Lemma run_segs_app sty col : forall a b sk out le f,
+  run_segs sty col false f (a ++ b) sk out le
+  = match run_segs sty col false f a sk out le with
+    | Ok (sk', out', le') => run_segs sty col false false b sk' out' le'
+    | Err e => Err e
+    end.
+Proof.
+  induction a as [|[pre t] r IH]; intros b sk out le f; [cbn [app run_segs]; apply run_segs_first|].
+  cbn [app run_segs]. destruct (do_tag sty col _ t sk) as [x|e]; cbn [bind]; [apply IH|reflexivity].
+Qed.
+
+Lemma do_open sty col nm p sk : resolve sty (py_lower nm) = Ok (Some p) -> do_tag sty col false (otag nm) sk = Ok (sk ++ [p], []).
+Proof. intros Hr. unfold do_tag, otag. cbn [andb]. rewrite Hr. reflexivity. Qed.
+Lemma do_close_any sty col sk p : do_tag sty col false close_any_tag (sk ++ [p]) = Ok (sk, []).
+Proof. unfold do_tag, close_any_tag, pop_any. cbn [andb]. now rewrite removelast_last. Qed.
+Lemma pop_style_top p sk : pop_style p (sk ++ [p]) = Ok sk.
+Proof.
+  unfold pop_style. destruct (sk ++ [p]) as [|x l] eqn:E; [destruct sk; discriminate|]. rewrite <- E.
+  rewrite rev_app_distr. cbn [rev app cut_rev]. now rewrite pstyle_eqb_refl, rev_involutive.
+Qed.
+Lemma do_close sty col nm p sk : tag_name nm -> resolve sty (py_lower nm) = Ok (Some p) ->
+  do_tag sty col false (ctag nm) (sk ++ [p]) = Ok (sk, []).
+Proof.
+  intros Hn Hr. unfold do_tag, ctag. destruct nm as [|c r]; [contradiction|]. cbn [andb]. rewrite Hr. cbn [bind].
+  now rewrite pop_style_top.
+Qed.
+
+Lemma ends_lt cur : ends_with_bsl (cur ++ [LT]) = false. Proof. now rewrite ends_app. Qed.
+
+Lemma run_inner sty tag p : resolve sty (py_lower tag) = Ok (Some p) -> forall x cur sk out,
+  run_segs sty false false false (inner_segs (otag tag) x cur) (sk ++ [p]) out false
+  = Ok (sk ++ [p], out ++ flat_map fst (inner_segs (otag tag) x cur), false).
+Proof.
+  intros Hr. induction x as [|c r IH]; intros cur sk out; cbn [inner_segs]; [cbn; now rewrite app_nil_r|].
+  destruct (N.eqb c LT); [|apply IH].
+  cbn [run_segs]. rewrite !esc_flag, ends_lt, do_close_any. cbn [bind fst snd andb].
+  rewrite (do_open sty false tag p sk Hr). cbn [bind fst snd]. rewrite IH, !apply_cur_false. cbn [flat_map fst app].
+  rewrite <- !app_assoc, ?app_nil_r. reflexivity.
+Qed.
+
+Lemma inner_cur_ends : forall x cur, ends_with_bsl (inner_cur x cur) = ends_with_bsl (cur ++ x).
+Proof.
+  induction x as [|c r IH]; intros cur; cbn [inner_cur]; [now rewrite app_nil_r|].
+  destruct (N.eqb_spec c LT) as [->|Hc].
+  - rewrite IH. cbn [app]. change (cur ++ LT :: r) with (cur ++ [LT] ++ r). rewrite app_assoc, (ends_app (cur ++ [LT]) r).
+    destruct r; [now rewrite ends_lt|reflexivity].
+  - rewrite IH, <- app_assoc. reflexivity.
+Qed.
+Lemma inner_text ot : forall x cur, flat_map fst (inner_segs ot x cur) ++ inner_cur x cur = cur ++ x.
+Proof.
+  induction x as [|c r IH]; intros cur; cbn [inner_segs inner_cur]; [cbn; now rewrite app_nil_r|].
+  destruct (N.eqb_spec c LT) as [->|Hc].
+  - cbn [flat_map fst app]. rewrite <- app_assoc, IH. cbn [app]. rewrite <- app_assoc. reflexivity.
+  - rewrite IH, <- app_assoc. reflexivity.
+Qed.
+
+Definition piece_plain (p : piece) : str := match p with PRaw t => t | PLit _ s => lit_body s | PNamed _ s => lit_body s end.
+Lemma piece_text p cur : flat_map fst (piece_segs p cur) ++ piece_cur p cur = cur ++ piece_plain p.
+Proof.
+  destruct p as [t|tag s|nm s]; cbn [piece_segs piece_cur piece_plain flat_map fst]; [reflexivity| |];
+    rewrite flat_map_app; cbn [flat_map fst]; rewrite !app_nil_r; f_equal; apply (inner_text _ (lit_body s) []).
+Qed.
+Lemma line_text : forall ps cur, flat_map fst (line_segs ps cur) ++ line_cur ps cur = cur ++ flat_map piece_plain ps.
+Proof.
+  induction ps as [|p r IH]; intros cur; cbn [line_segs line_cur flat_map]; [now rewrite app_nil_r|].
+  rewrite flat_map_app, <- app_assoc, IH, app_assoc, piece_text, <- app_assoc. reflexivity.
+Qed.
+
+Lemma run_piece sty p : piece_ok sty p -> forall cur sk out, ends_with_bsl cur = false ->
+  run_segs sty false false false (piece_segs p cur) sk out false = Ok (sk, out ++ flat_map fst (piece_segs p cur), false).
+Proof.
+  destruct p as [t|tag s|nm s]; cbn [piece_ok piece_segs].
+  - intros _ cur sk out _. cbn. now rewrite app_nil_r.
+  - intros [Hn [p Hr]] cur sk out Hcur. cbn [run_segs]. rewrite esc_flag, Hcur, (do_open sty false tag p sk Hr). cbn [bind fst snd].
+    rewrite run_segs_app, (run_inner sty tag p Hr). cbn [run_segs].
+    rewrite esc_flag, inner_cur_ends. cbn [app]. rewrite ends_lit_body, do_close_any. cbn [bind fst snd].
+    rewrite !apply_cur_false. cbn [flat_map fst]. rewrite flat_map_app. cbn [flat_map fst]. rewrite <- !app_assoc, ?app_nil_r. reflexivity.
+  - intros [Hn [p Hr]] cur sk out Hcur. cbn [run_segs]. rewrite esc_flag, Hcur, (do_open sty false nm p sk Hr). cbn [bind fst snd].
+    rewrite run_segs_app, (run_inner sty nm p Hr). cbn [run_segs].
+    rewrite esc_flag, inner_cur_ends. cbn [app]. rewrite ends_lit_body, (do_close sty false nm p sk Hn Hr). cbn [bind fst snd].
+    rewrite !apply_cur_false. cbn [flat_map fst]. rewrite flat_map_app. cbn [flat_map fst]. rewrite <- !app_assoc, ?app_nil_r. reflexivity.
+Qed.
+Lemma piece_cur_ends sty p cur : piece_ok sty p -> ends_with_bsl cur = false -> ends_with_bsl (piece_cur p cur) = false.
+Proof.
+  destruct p as [t|tag s|nm s]; cbn [piece_ok piece_cur]; try reflexivity.
+  intros Ht Hcur. rewrite ends_app. destruct t as [|c t]; [exact Hcur|]. apply no_bsl_ends, safe_no_bsl, Ht.
+Qed.
+Lemma run_line sty : forall ps, pieces_ok sty ps -> forall cur sk out, ends_with_bsl cur = false ->
+  run_segs sty false false false (line_segs ps cur) sk out false = Ok (sk, out ++ flat_map fst (line_segs ps cur), false).
+Proof.
+  induction 1 as [|p r Hp Hr IH]; intros cur sk out Hcur; cbn [line_segs]; [cbn; now rewrite app_nil_r|].
+  rewrite run_segs_app, (run_piece sty p Hp cur sk out Hcur), IH; [|apply (piece_cur_ends sty), Hcur; exact Hp].
+  rewrite flat_map_app, app_assoc. reflexivity.
+Qed.
+
+(* no piece ends with a backslash *)
+Lemma piece_str_ends sty p : piece_ok sty p -> ends_with_bsl (piece_str p) = false.
+Proof.
+  destruct p as [t|tag s|nm s]; cbn [piece_ok piece_str].
+  - intros Ht. apply no_bsl_ends, safe_no_bsl, Ht.
+  - intros _. rewrite tagged_eq, app_assoc, ends_app. reflexivity.
+  - intros _. unfold close_tag. change (LT :: SLASH :: nm ++ [GT]) with ((LT :: SLASH :: nm) ++ [GT]). rewrite !app_assoc, ends_app. reflexivity.
+Qed.
+Lemma line_str_ends sty ps : pieces_ok sty ps -> ends_with_bsl (line_str ps) = false.
+Proof.
+  induction 1 as [|p r Hp Hr IH]; [reflexivity|]. change (line_str (p :: r)) with (piece_str p ++ line_str r).
+  rewrite ends_app. destruct (line_str r); [apply (piece_str_ends sty), Hp|exact IH].
+Qed.
+Lemma piece_plain_ends sty p : piece_ok sty p -> ends_with_bsl (piece_plain p) = false.
+Proof.
+  destruct p as [t|tag s|nm s]; cbn [piece_ok piece_plain]; intros H; try apply ends_lit_body. apply no_bsl_ends, safe_no_bsl, H.
+Qed.
+Lemma unescape_piece sty p : piece_ok sty p -> unescape (piece_plain p) = piece_shown p.
+Proof.
+  destruct p as [t|tag s|nm s]; cbn [piece_ok piece_plain piece_shown]; intros H; try apply unescape_lit_body.
+  apply unescape_id, safe_no_bsl, H.
+Qed.
+Lemma unescape_pieces sty ps : pieces_ok sty ps -> unescape (flat_map piece_plain ps) = flat_map piece_shown ps.
+Proof.
+  induction 1 as [|p r Hp Hr IH]; [reflexivity|]. cbn [flat_map].
+  rewrite unescape_app_l, IH, (unescape_piece sty p Hp); [reflexivity|apply (piece_plain_ends sty), Hp].
+Qed.
+
+(* ---------- C. a whole line, plain mode ---------- *)
+Theorem line_plain sty sk ps : pieces_ok sty ps ->
+  colorize sty false sk (line_str ps) = Ok (sk, flat_map piece_shown ps).
+Proof.
+  intros Hok. unfold colorize. rewrite (lex_line sty ps Hok).
+  pose proof (line_text ps []) as HT. cbn [app] in HT.
+  destruct (line_segs ps []) as [|sg segs] eqn:E.
+  - pose proof (lex_lossless (line_str ps)) as HL. rewrite (lex_line sty ps Hok), E in HL. cbn [fst snd flat_map app] in HL.
+    cbn [flat_map app] in HT. rewrite <- HL, HT, (unescape_pieces sty ps Hok). reflexivity.
+  - rewrite <- E in *. rewrite (line_str_ends sty ps Hok), run_segs_first, (run_line sty ps Hok [] sk [] eq_refl).
+    cbn [bind app]. rewrite !apply_cur_false, removelast_lastchar, HT, (unescape_pieces sty ps Hok). reflexivity.
+Qed.
+
+(* ---------- B. one literal ---------- *)
+Theorem literal_plain sty sk tag p s : tag_name tag -> resolve sty (py_lower tag) = Ok (Some p) ->
+  colorize sty false sk (tagged tag (literal s tag)) = Ok (sk, shown s).
+Proof.
+  intros Hn Hr. pose proof (line_plain sty sk [PLit tag s]) as H. cbn [line_str flat_map piece_str piece_shown] in H.
+  rewrite !app_nil_r in H. apply H. constructor; [|constructor]. split; [exact Hn|]. exists p. exact Hr.
+Qed.
+Theorem literal_named_plain sty sk nm p s : tag_name nm -> resolve sty (py_lower nm) = Ok (Some p) ->
+  colorize sty false sk (open_tag nm ++ literal s nm ++ close_tag nm) = Ok (sk, shown s).
+Proof.
+  intros Hn Hr. pose proof (line_plain sty sk [PNamed nm s]) as H. cbn [line_str flat_map piece_str piece_shown] in H.
+  rewrite !app_nil_r in H. apply H. constructor; [|constructor]. split; [exact Hn|]. exists p. exact Hr.
+Qed.
